@@ -4,6 +4,7 @@ are not vacuous).
 -/
 import LolHtml.Model.Codecs
 import LolHtml.Spec.Enc
+import LolHtml.Lemmas.EncCodec
 
 namespace LolHtml.Enc
 
@@ -14,12 +15,14 @@ theorem utf8Len_single (ch : Char) : utf8Len [ch] ≤ 4 := by
 
 theorem singleByte_lawful (t : List Nat) : (singleByte t).Lawful where
   ascii := by intro b hb; simp [singleByte, hb]
-  init_consumes := by
-    intro b; simp only [singleByte]
-    split
-    · rfl
-    · split <;> rfl
-  unread_init := by intro s b _; rfl
+  unread_once := Codec.unread_once_of _
+    (by
+      intro b; simp only [singleByte]
+      split
+      · rfl
+      · split <;> rfl)
+    (by
+      intro s b _; rfl)
   flush_init := rfl
   step_small := by
     intro s b; simp only [singleByte]
@@ -49,20 +52,21 @@ theorem iso88597_lawful : iso88597.Lawful := singleByteEnc_lawful iso88597Table
 
 theorem toy2_lawful : toy2.Lawful where
   ascii := by intro b hb; simp [toy2, hb]
-  init_consumes := by
-    intro b; simp only [toy2]
-    split
-    · rfl
-    · split <;> rfl
-  unread_init := by
-    intro s b h
-    cases s with
-    | none =>
-      simp only [toy2] at h
-      split at h <;> (try split at h) <;> simp at h
-    | some l =>
-      simp only [toy2] at h ⊢
-      split <;> (try split) <;> rfl
+  unread_once := Codec.unread_once_of _
+    (by
+      intro b; simp only [toy2]
+      split
+      · rfl
+      · split <;> rfl)
+    (by
+      intro s b h
+      cases s with
+      | none =>
+        simp only [toy2] at h
+        split at h <;> (try split at h) <;> simp at h
+      | some l =>
+        simp only [toy2] at h ⊢
+        split <;> (try split) <;> rfl)
   flush_init := rfl
   step_small := by
     intro s b
@@ -103,22 +107,23 @@ theorem utf8Codec_lawful : utf8Codec.Lawful where
     intro b hb
     have : b < 0x80 := hb
     simp [utf8Codec, u8Step, U8.init, this]
-  init_consumes := by
-    intro b
-    simp only [utf8Codec, u8Step, U8.init, if_true]
-    split <;> (try split) <;> (try split) <;> (try split) <;> (try split) <;> rfl
-  unread_init := by
-    intro s b h
-    simp only [utf8Codec, u8Step] at h ⊢
-    split at h
-    · split at h <;> (try split at h) <;> (try split at h) <;> (try split at h) <;> (try split at h) <;> simp at h
-    · rename_i hn
-      simp only [hn, if_false]
-      split
-      · rfl
-      · rename_i hr
-        simp only [hr, Bool.false_eq_true, if_false] at h
-        split at h <;> simp at h
+  unread_once := Codec.unread_once_of _
+    (by
+      intro b
+      simp only [utf8Codec, u8Step, U8.init, if_true]
+      split <;> (try split) <;> (try split) <;> (try split) <;> (try split) <;> rfl)
+    (by
+      intro s b h
+      simp only [utf8Codec, u8Step] at h ⊢
+      split at h
+      · split at h <;> (try split at h) <;> (try split at h) <;> (try split at h) <;> (try split at h) <;> simp at h
+      · rename_i hn
+        simp only [hn, if_false]
+        split
+        · rfl
+        · rename_i hr
+          simp only [hr, Bool.false_eq_true, if_false] at h
+          split at h <;> simp at h)
   flush_init := by simp [utf8Codec, U8.init]
   step_small := by
     intro s b
